@@ -24,6 +24,13 @@ def fi_nontrivial(evs):
     return purge and merge
 
 
+def fi_nontrivial_wide(evs):
+    # wide numbers are limb lists [l0..l3] (base 2^20): non-trivial if some total reached 2^53 (limb 2 >= 2^13 or limb 3 > 0) and a purge happened
+    big = any(isinstance(e.get("total"), list) and (e["total"][3] > 0 or e["total"][2] >= 8192) for e in evs)
+    purge = any(e["e"] == "Update" and any(e["off"]) for e in evs)
+    return big and purge
+
+
 FI_JOB = job("fi",
     harness="fi_rec", inc=["common", "fi"], spec="TraceFreqItems", owners=["C12"], serde=True,
     drift_cfg="TraceFreqItemsB.cfg",    # tier B: the mechanism of FreqItemsMech (code constants) applied to the logged pre-state
@@ -36,6 +43,16 @@ FI_JOB = job("fi",
                                          "--serde", 20 if profile == "serde" else 3],
     nontrivial=fi_nontrivial,
     rec_timeout=240,     # a recording takes seconds; a driver that hangs inside the library is reported as a crash
+)
+
+# 64-bit weights (totals crossing 2^53): the same driver with --wide 1, every number logged as 4 limbs of 20 bits and the same trace
+# specification / contract evaluated on exact wide naturals (TraceFreqItemsW.cfg: WideNums = TRUE); tier A only
+FI_WIDE_JOB = job("fi_wide",
+    harness="fi_rec", inc=["common", "fi"], spec="TraceFreqItems", cfg="TraceFreqItemsW.cfg", owners=["C12"],
+    files={Q: 2, T: 8},
+    args=lambda tier, seed, k, profile: ["--seed", seed, "--segments", 4 if tier == Q else 6, "--events", 300, "--maxlg", 6,
+                                         "--serde", 3, "--wide", 1],
+    nontrivial=fi_nontrivial_wide, rec_timeout=240,
 )
 
 GEN_DIR = os.path.join(core.BUILD, "gen_fi.%d" % os.getpid())   # one directory per run
@@ -112,6 +129,7 @@ def run_c12(oc, repo, seed, tier):
     neg = core.model_check("FreqItemsDesign", "MC_FreqItemsDesign_neg.cfg", workers=4, timeout=300, expect_violation=True)
     oc.notes.append("negative config MC_FreqItemsDesign_neg.cfg (merge skips a sketch without active rows): TLC reports %s" % (neg["errors"][:1],))
     core.trace_job(oc, FI_JOB, repo, seed, tier)
+    core.trace_job(oc, FI_WIDE_JOB, repo, seed, tier)
     gen_fi(oc, tier, seed)
     core.trace_job(oc, FI_REPLAY_JOB, repo, seed, tier)
     shutil.rmtree(GEN_DIR, ignore_errors=True)
